@@ -2,7 +2,7 @@
 Used by C01, C02, C03, C09.
 
 AST (python tuples)
-  expr: ('lit', ity, int) | ('bool', b) | ('var', x) | ('bin', op, a, b) | ('un', op, a) | ('cast', a, ity) | ('call', f, [args])
+  expr: ('lit', ity, int) | ('bool', b) | ('str', "text") | ('var', x) | ('bin', op, a, b) | ('un', op, a) | ('cast', a, ity) | ('call', f, [args])
         | ('slit', sid, [field exprs]) | ('field', e, k[, array?])  (struct types are the strings "S<sid>", table STRUCTS;
                                                                        array? = written e[k] instead of e.F<k>)
   stmt: ('let', x, ty, e, const?) | ('assign', x, e) | ('cassign', x, op, e) | ('inc', x, +1|-1)
@@ -28,9 +28,13 @@ STRUCTS = [["i32", "u8"], ["i64", "i16", "u32"], ["u16"], ["i8", "i8", "u64"], [
            ["u32", "u32"], ["i16", "u8", "u8", "i64"], ["u64", "i8"],
            # from here on: fixed arrays [N]T. In the reference a fixed array indexed by constants is the same object as a struct
            # with N fields of type T (a by-value aggregate with positional components); only the concrete syntax differs.
-           ["i32"] * 4, ["u8"] * 2, ["i64"], ["i16"] * 3, ["u64"] * 5]
-NSTRUCT = 8
-def is_array(t): return is_struct(t) and sid_of(t) >= NSTRUCT
+           ["i32"] * 4, ["u8"] * 2, ["i64"], ["i16"] * 3, ["u64"] * 5,
+           # small-field aggregates: sizes 3, 4, 6, 7, 10 bytes (copies that are not a multiple of the word size)
+           ["u16", "u16", "u16"], ["u8"] * 6, ["u16"] * 5, ["u8"] * 6, ["i8", "u8", "i16"], ["u8", "u8", "u8"], ["i8"] * 7]
+ARRAY_SIDS = {8, 9, 10, 11, 12, 15, 16, 19}
+NAMED_SIDS = [k for k in range(len(STRUCTS)) if k not in ARRAY_SIDS]
+def is_array_sid(k): return k in ARRAY_SIDS
+def is_array(t): return is_struct(t) and sid_of(t) in ARRAY_SIDS
 def is_struct(t): return isinstance(t, str) and t[0] == "S"
 def is_mutref(t): return isinstance(t, str) and t[0] == "&"      # "&S3": parameter type &'S3 (mutable reference)
 def base_ty(t): return t[1:] if is_mutref(t) else t
@@ -60,6 +64,7 @@ def r_expr(e):
         v = e[2]
         return "(%d)" % v if v < 0 else str(v)
     if k == "bool": return "true" if e[1] else "false"
+    if k == "str": return '"%s"' % e[1]
     if k == "var": return "v%d" % e[1]
     if k == "bin": return "(%s %s %s)" % (r_expr(e[2]), e[1], r_expr(e[3]))
     if k == "un": return "(%s%s)" % (e[1], r_expr(e[2]))
@@ -75,7 +80,7 @@ def r_expr(e):
             return "%s.m%d(%s)" % (r_expr(e[2][0]), e[1], ", ".join(arg(i + 1, a) for i, a in enumerate(e[2][1:])))
         return "%s%d(%s)" % ("m" if e[1] in METHODS else "f", e[1], ", ".join(arg(i, a) for i, a in enumerate(e[2])))
     if k == "slit":
-        if e[1] >= NSTRUCT: return "[%s]" % ", ".join(r_expr(a) for a in e[2])
+        if is_array_sid(e[1]): return "[%s]" % ", ".join(r_expr(a) for a in e[2])
         return "({ %s } as S%d)" % (", ".join(".F%d = %s" % (i, r_expr(a)) for i, a in enumerate(e[2])), e[1])
     if k == "field":
         if e[3] if len(e) > 3 else False: return "%s[%d]" % (r_expr(e[1]), e[2])
@@ -171,6 +176,7 @@ def to_ferret(prog):
 def c_ity(t): return t.upper()
 def c_ty(t):
     if t == "bool": return "TBool"
+    if t == "str": return "TStr"
     if t == "void": return "TVoid"
     if is_struct(t): return "(TStruct %d)" % sid_of(t)
     if is_mutref(t): return "(TMutRef %d)" % sid_of(t[1:])
@@ -180,6 +186,7 @@ def c_expr(e, types=None):
     k = e[0]
     if k == "lit": return "(ELit %s (%d)%%Z)" % (c_ity(e[1]), e[2])
     if k == "bool": return "(EBool %s)" % ("true" if e[1] else "false")
+    if k == "str": return '(EStr "%s"%%string)' % e[1]
     if k == "var": return "(EVar %d)" % e[1]
     if k == "bin": return "(EBin %s %s %s)" % (COQ_OP[e[1]], c_expr(e[2]), c_expr(e[3]))
     if k == "un": return "(EUn %s %s)" % ("Neg" if e[1] == "-" else "Not", c_expr(e[2]))
@@ -247,6 +254,7 @@ def c_lines(lines):
     """observed output lines (list of list of python int/bool) -> Coq `list line`"""
     def it(x):
         if isinstance(x, bool): return "OBool %s" % ("true" if x else "false")
+        if isinstance(x, str): return 'OStr "%s"%%string' % x
         return "OInt (%d)%%Z" % x
     return "[" + "; ".join("[" + "; ".join(it(x) for x in l) + "]" for l in lines) + "]"
 
@@ -260,6 +268,7 @@ def parse_output(text):
             if t == "true": row.append(True)
             elif t == "false": row.append(False)
             elif re.fullmatch(r"-?\d+", t): row.append(int(t))
+            elif re.fullmatch(r"[a-z]+", t): row.append(t)      # strings are generated from lower-case letters only
             else: return None
         lines.append(row)
     return lines
@@ -304,6 +313,7 @@ class Gen:
         self.gate_self_operand = False    # (was a gate for F-QBE-SELF-OPERAND, repaired by 340ec5d)
         self.structs = True               # struct-typed locals, parameters, results, field reads and writes
         self.refs = True                  # parameters passed by mutable reference (&'S), written through by the callee
+        self.strings = True               # str values: literals, concatenation, == / !=, parameters, results, printing
         self.refparams = set()            # by-reference parameters of the function being generated
         # the borrow checker keeps a mutable borrow alive to the end of the statement: within one statement a variable that is
         # lent (&'x) may be read before the call (left to right) but is not mentioned after it, and is not the target of the
@@ -432,6 +442,9 @@ class Gen:
             return ("bin", "&&" if c == "and" else "||", lhs, rhs)
         if c == "call":
             return self.call_expr("bool", env, d)
+        if self.strings and self.vars_of(env, "str") and r.random() < 0.12:
+            self.feat("str-compare")
+            return ("bin", r.choice(["==", "!="]), self.str_expr(env, max(d - 1, 0), nonlit=True), self.str_expr(env, max(d - 1, 0)))
         t = r.choice(self.itys)
         op = r.choice(CMP)
         self.feat("cmp:" + t)
@@ -454,7 +467,27 @@ class Gen:
         self.feat("struct-lit")
         return ("slit", sid_of(t), [self.int_expr(ft, env, max(d - 1, 0)) for ft in fields_of(t)])
 
+    STR_ALPHABET = "abcdghkmnpqsxyz"      # no t, r, u, e, f, l: no concatenation can spell true / false
+
+    def str_expr(self, env, d, nonlit=False):
+        r = self.rng
+        vs = self.vars_of(env, "str")
+        choices = []
+        if vs: choices += ["var"] * 3
+        if not nonlit or not vs: choices += ["lit"] * 2
+        if d > 0:
+            choices += ["cat"] * 3
+            if self.cands(env, lambda f: f[1] == "str"): choices += ["call"] * 2
+        c = r.choice(choices)
+        if c == "var": return ("var", r.choice(vs))
+        if c == "call": return self.call_expr("str", env, d)
+        if c == "cat":
+            self.feat("str-concat")
+            return ("bin", "+", self.str_expr(env, d - 1), self.str_expr(env, d - 1))
+        return ("str", "".join(r.choice(self.STR_ALPHABET) for _ in range(r.randint(1, 4))))
+
     def expr(self, t, env, d, nonlit=False):
+        if t == "str": return self.str_expr(env, d, nonlit)
         if is_struct(t): return self.struct_expr(t, env, d)
         return self.bool_expr(env, d, nonlit) if t == "bool" else self.int_expr(t, env, d, nonlit)
 
@@ -490,6 +523,7 @@ class Gen:
     def any_ty(self, with_bool=True, with_struct=False):
         r = self.rng
         if with_struct and self.structs and r.random() < 0.18: return "S%d" % r.randrange(len(STRUCTS))
+        if with_bool and self.strings and r.random() < 0.1: return "str"
         if with_bool and r.random() < 0.2: return "bool"
         return r.choice(self.itys)
 
@@ -513,6 +547,7 @@ class Gen:
         if assignable: choices += ["assign"] * 3 + ["cassign"] * 2 + ["inc"]
         sassignable = [(x, ty) for x, ty in assignable if is_struct(ty)]
         if sassignable: choices += ["assignf"] * 3
+        if self.structs and r.random() < 0.5: choices += ["dump"] * 2
         if d > 0 and self.budget > 3:
             choices += ["if"] * 3 + ["while"] * 2 + ["block"] + ["for"] * 2 + ["match"] * 2
         if inloop and r.random() < 0.15: choices += ["break", "continue"]
@@ -528,6 +563,13 @@ class Gen:
             e = self.expr(t, env, r.randint(0, 3))
             env[-1][x] = (t, const)
             return ("let", x, t, e, const)
+        if c == "dump":
+            # every component of one aggregate (a copy that drops or garbles a tail component shows here)
+            svs = [(x, ty) for sc in env for x, (ty, _) in sc.items() if is_struct(ty)]
+            if svs:
+                x, ty = r.choice(svs)
+                return ("print", [("field", ("var", x), k_, is_array(ty)) for k_ in range(len(fields_of(ty)))])
+            c = "print"
         if c == "print":
             vs = [(x, ty) for sc in env for x, (ty, _) in sc.items()]
             es = []
@@ -558,7 +600,7 @@ class Gen:
                 return ("cassignf", x, k, op, ("lit", ft, r.choice([1, 2, 3, 7])), is_array(ty))
             return ("cassignf", x, k, op, self.int_expr(ft, env, r.randint(0, 2)), is_array(ty))
         if c == "cassign":
-            ints = [(x, t) for x, t in assignable if t != "bool" and not is_struct(t)]
+            ints = [(x, t) for x, t in assignable if t in ITYS]
             if not ints: return ("print", [self.expr("bool", env, 1, nonlit=True)])
             x, t = r.choice(ints)
             op = r.choice(["+", "-", "*", "/", "%"])
@@ -569,7 +611,7 @@ class Gen:
                 e = ("bin", "+", e, ("lit", t, 1))
             return ("cassign", x, op, e)
         if c == "inc":
-            ints = [(x, t) for x, t in assignable if t != "bool" and not is_struct(t)]
+            ints = [(x, t) for x, t in assignable if t in ITYS]
             if not ints: return ("print", [self.expr("bool", env, 1, nonlit=True)])
             x, t = r.choice(ints)
             return ("inc", x, r.choice([1, -1]), t)
@@ -624,6 +666,12 @@ class Gen:
                         decls.append(("let", vs, t, ("lit", t, sv), False))
                         step = ("var", vs)
                         self.feat("for-step-variable")
+                        if r.random() < 0.5:
+                            # the step is reassigned on a path that may or may not be taken: what the variable holds when the
+                            # loop starts is not the last constant written to it in the text
+                            other = r.choice([c_ for c_ in ([1, 2, 3] + ([-1, -2, -3] if signed(t) else [])) if c_ != sv])
+                            decls.append(("if", self.bool_expr(env, 1, nonlit=True), [("assign", vs, ("lit", t, other))], []))
+                            self.feat("for-step-reassigned")
             env3 = env2 + [{x: (t, True)}]           # the loop variable is immutable
             body = self.block(env3, d - 1, True, ret, r.randint(1, 4), protected | {x, vlo, vhi} | ({step[1]} if step and step[0] == "var" else set()))
             return ("block", decls + [("for", x, t, ("var", vlo), ("var", vhi), body, incl, step)])
@@ -659,9 +707,9 @@ class Gen:
     def prelude(self, env):
         """one variable of every type at function entry, so that a non-literal operand always exists"""
         out = []
-        for t in self.itys + ["bool"]:
+        for t in self.itys + ["bool"] + (["str"] if self.strings else []):
             x = self.fresh()
-            e = ("bool", self.rng.random() < 0.5) if t == "bool" else self.lit(t)
+            e = ("bool", self.rng.random() < 0.5) if t == "bool" else (self.str_expr(env, 0) if t == "str" else self.lit(t))
             env[-1][x] = (t, False)
             out.append(("let", x, t, e, False))
         if self.structs:
@@ -677,7 +725,7 @@ class Gen:
         """force = (parameter types, result type, method?) pins the signature (used for the evaluation-order kit)"""
         r = self.rng
         ret = r.choice(["void"] + [self.any_ty(with_struct=True)] * 3)
-        rec = ret != "void" and ret != "bool" and not is_struct(ret) and r.random() < 0.35
+        rec = ret in ITYS and r.random() < 0.35
         params = []
         method = False
         if force is not None:
@@ -688,7 +736,7 @@ class Gen:
             params.append((self.fresh(), "i32"))
         if force is None and self.structs and not rec and r.random() < 0.35:
             method = True
-            params.append((self.fresh(), "S%d" % r.randrange(NSTRUCT)))      # a receiver is a named type
+            params.append((self.fresh(), "S%d" % r.choice(NAMED_SIDS)))      # a receiver is a named type
             self.feat("method")
         for _ in range(r.randint(0, 3) if force is None else 0):
             t = self.any_ty(with_struct=True)
@@ -750,7 +798,7 @@ class Gen:
             # argument of the same call changes the variable through a reference:  x.m(g(&'x, e))  /  f(x, g(&'x, e))
             sid = r.randrange(len(STRUCTS))
             st, it = "S%d" % sid, r.choice(self.itys)
-            ka = len(prog); prog.append(self.function(ka, force=([st, it], it, sid < NSTRUCT and r.random() < 0.7)))
+            ka = len(prog); prog.append(self.function(ka, force=([st, it], it, not is_array_sid(sid) and r.random() < 0.7)))
             kb = len(prog); prog.append(self.function(kb, force=(["&" + st, it], it, False)))
             kit = (st, it, ka, kb)
             self.feat("evaluation-order-kit")
